@@ -287,6 +287,9 @@ func (c *Conv) setPaddingWithAutoPad(x tensor.Tensor) {
 		dim := inputShape[nNonSpatialDims+i]
 		targetSize := (dim + c.strides[i] - 1) / c.strides[i]
 		padNeeded := (targetSize-1)*c.strides[i] + c.kernelShape[i] - dim
+		if padNeeded < 0 {
+			padNeeded = 0
+		}
 
 		var padHead int
 		if c.autoPad == SameLower {
